@@ -161,7 +161,36 @@ Lemma in_dom_arr l x : in_dom (JArr l) = true -> In x l -> in_dom x = true.
 Proof. simpl. intros H Hin. apply (proj1 (forallb_forall _ _) H x Hin). Qed.
 
 Lemma in_dom_obj kvs kv : in_dom (JObj kvs) = true -> In kv kvs -> in_dom (snd kv) = true.
-Proof. simpl. intros H Hin. apply (proj1 (forallb_forall _ _) H kv Hin). Qed.
+Proof.
+  simpl. intros H Hin. apply andb_true_iff in H. destruct H as [_ H].
+  apply (proj1 (forallb_forall _ _) H kv Hin).
+Qed.
+
+Lemma in_dom_keys kvs : in_dom (JObj kvs) = true -> nodup_ustr (map fst kvs) = true.
+Proof. simpl. intros H. apply andb_true_iff in H. destruct H as [H _]. exact H. Qed.
+
+(* an object all of whose member names are [k], one at least, with distinct names *)
+Lemma single_key (kvs : list (ustring * json)) k :
+  nodup_ustr (map fst kvs) = true -> (forall kv, In kv kvs -> fst kv = k) -> has_key k kvs = true ->
+  exists pj, kvs = [(k, pj)].
+Proof.
+  intros Hn Hk Hh. destruct kvs as [|[k1 x] r]; [discriminate|].
+  assert (E1 := Hk (k1, x) (or_introl eq_refl)). simpl in E1. subst k1.
+  destruct r as [|[k2 y] r']; [exists x; reflexivity|].
+  assert (E2 := Hk (k2, y) (or_intror (or_introl eq_refl))). simpl in E2. subst k2.
+  simpl in Hn. rewrite ustr_eqb_refl in Hn. discriminate.
+Qed.
+
+Lemma remove_two_keys (kvs : list (ustring * json)) tg ct :
+  (forall kv, In kv kvs -> fst kv = tg \/ fst kv = ct) -> remove_key ct (remove_key tg kvs) = [].
+Proof.
+  induction kvs as [|[k x] r IH]; intros H; [reflexivity|]. simpl.
+  assert (Hr : remove_key ct (remove_key tg r) = []) by (apply IH; intros kv Hin; apply H; right; exact Hin).
+  destruct (ustr_eqb tg k) eqn:E; [exact Hr|].
+  simpl. destruct (H (k, x) (or_introl eq_refl)) as [Hk|Hk]; simpl in Hk; subst k.
+  - rewrite ustr_eqb_refl in E. discriminate.
+  - rewrite ustr_eqb_refl. exact Hr.
+Qed.
 
 Lemma in_dom_assoc kvs k x : in_dom (JObj kvs) = true -> assoc k kvs = Some x -> in_dom x = true.
 Proof. intros H E. apply assoc_In in E. apply (in_dom_obj kvs (k, x) H E). Qed.
@@ -231,6 +260,52 @@ Proof.
   - simpl. intros H. destruct (IH H) as [y [Hin Hy]]. exists y. split; [right; exact Hin | exact Hy].
 Qed.
 
+(* on scalars, instance equality is symmetric and transitive (on objects with
+   repeated keys it is not) *)
+Lemma json_equiv_scalar e v x :
+  is_scalar e = true -> json_equiv e v = true -> json_equiv e x = true -> json_equiv v x = true.
+Proof.
+  destruct e; try discriminate; intros _; destruct v; try discriminate; destruct x; try discriminate;
+    simpl; try reflexivity; intros H1 H2;
+    try (apply eqb_prop in H1, H2; subst; apply eqb_reflx);
+    try (apply ustr_eqb_eq in H1, H2; subst; apply ustr_eqb_refl);
+    rewrite ?Z.eqb_eq, ?Qeq_bool_iff in *;
+    first [ lia
+          | (subst; assumption)
+          | (subst; symmetry; assumption)
+          | (rewrite <- H1; exact H2)
+          | (rewrite H1 in H2; unfold Qeq in H2; simpl in H2; lia) ].
+Qed.
+
+Lemma enum_ok_sound enum vs v :
+  enum_ok enum vs = true -> valid_enum enum v = true -> existsb (json_equiv v) vs = true.
+Proof.
+  unfold enum_ok, valid_enum. destruct enum as [es|]; [|discriminate]. simpl. intros H Hv.
+  apply existsb_exists in Hv. destruct Hv as [e [Hin He]].
+  apply (proj1 (forallb_forall _ _) H) in Hin. apply andb_true_iff in Hin. destruct Hin as [Hs Hx].
+  apply existsb_exists in Hx. destruct Hx as [x [Hin Hx]].
+  apply existsb_exists. exists x. split; [exact Hin | eapply json_equiv_scalar; eassumption].
+Qed.
+
+Lemma strs_In es names y : strs es = Some names -> In (JStr y) es -> In y names.
+Proof.
+  revert names. induction es as [|e es IH]; intros names H Hin; [destruct Hin|].
+  simpl in H. destruct e; try discriminate.
+  destruct (strs es) as [l|]; [|discriminate]. simpl in H. inversion H. subst names.
+  destruct Hin as [E|Hin]; [inversion E; left; reflexivity | right; apply IH; [reflexivity | exact Hin]].
+Qed.
+
+Lemma str_simple_find vs es s :
+  forallb (str_simple vs) es = true -> valid_enum (Some es) (JStr s) = true ->
+  exists i vr, find_variant s vs 0 = Some (i, vr) /\ v_det vr = VSimple.
+Proof.
+  intros H Hv. simpl in Hv. apply existsb_exists in Hv. destruct Hv as [e [Hin He]].
+  apply (proj1 (forallb_forall _ _) H) in Hin. unfold str_simple in Hin.
+  destruct e as [| | | |x| |]; try discriminate. simpl in He. apply ustr_eqb_eq in He. subst x.
+  destruct (find_variant s vs 0) as [[i vr]|]; [|discriminate].
+  exists i, vr. split; [reflexivity|]. destruct (v_det vr); try discriminate. reflexivity.
+Qed.
+
 (* ================================================================== soundness *)
 Section Sound.
   Variables re_match fmt_ok native_ok : ustring -> ustring -> bool.
@@ -254,6 +329,15 @@ Section Sound.
   Definition Pcov (cov : schema -> bool -> target -> bool) (n : nat) (c : schema) : Prop :=
     forall nn tg v, cov c nn tg = true -> in_dom v = true -> (nn = true -> v <> JNull) ->
                     vx n c v = true -> accepts tg v.
+
+  (* [Q] holds of the children the checker descends into *)
+  Definition Pkids (Q : schema -> Prop) (s : schema) : Prop :=
+    match s with
+    | SBool _ => True
+    | SObj _ _ _ _ _ _ _ items _ _ _ _ props _ ap _ _ _ anyo oneo _ _ _ _ =>
+        Forall Q items /\ Forall (fun kv => Q (snd kv)) props /\ OForall Q ap
+        /\ OForall (Forall Q) anyo /\ OForall (Forall Q) oneo
+    end.
 
   (* ---------------------------------------------------------------- type side *)
   Lemma de_at f t d j :
@@ -290,6 +374,16 @@ Section Sound.
     destruct j; try (exists 1; rewrite (de_at _ _ _ _ E); simpl; congruence);
       (destruct Hd as [f Hf]; [congruence|]; exists (S f); rewrite (de_at _ _ _ _ E); simpl;
        destruct (get_det T t') as [[]|]; rewrite ?option_map_ok; exact Hf).
+  Qed.
+
+  Lemma cenum_de t d t' vs f j :
+    get_det T t = Some d -> cenum_of d = Some (t', vs) ->
+    existsb (json_equiv j) vs = true -> de f t' j <> None -> de (S f) t j <> None.
+  Proof.
+    intros E H Hx Hd. rewrite (de_at _ _ _ _ E). destruct d; try discriminate.
+    match goal with c : constraints |- _ => destruct c end; try discriminate.
+    simpl in H. inversion H. subst. cbn [de_node].
+    destruct (de f t' j); [|congruence]. rewrite Hx. discriminate.
   Qed.
 
   Lemma map_de t k vt kvs f :
@@ -518,13 +612,10 @@ Section Sound.
         apply andb_true_iff in Hc. destruct Hc as [Hc1 Hc2].
         destruct (ty_is_sound _ _ _ _ _ Hc1 Hty Hnn) as [ity [[<-|[]] Hok]].
         destruct v as [| | | |s| |]; try discriminate.
-        destruct enum as [es|]; [|discriminate]. simpl in Hen.
-        apply existsb_exists in Hen. destruct Hen as [e [Hin He]].
-        apply (proj1 (forallb_forall _ _) Hc2) in Hin.
-        destruct e as [| | | |x| |]; try discriminate. simpl in He. apply ustr_eqb_eq in He. subst x.
+        destruct enum as [es|]; [|discriminate].
+        destruct (str_simple_find _ _ _ Hc2 Hen) as [i [vr [Ef Evr]]].
         exists 1. rewrite (de_at _ _ _ _ Ed). cbn [de_node]. unfold de_enum.
-        destruct (find_variant s vs 0) as [[i vr]|]; [|discriminate].
-        destruct (v_det vr); discriminate.
+        rewrite Ef, Evr. discriminate.
       - (* DStruct *)
         edestruct struct_sound as [f Hf];
           [exact Hprops | exact Hap | exact Hc | exact Hd | exact Hnn | exact Hv |].
@@ -627,34 +718,188 @@ Section Sound.
     Qed.
 
 
+    (* tagged variants *)
+    Lemma payload_sound sc deny vr pj :
+      Pcov cov n sc -> payload_ok cov sc deny vr = true -> in_dom pj = true -> vx n sc pj = true ->
+      exists f, de_payload T (de f) (dv f) deny (v_det vr) pj <> None.
+    Proof.
+      intros HP Hc Hd Hv. unfold payload_ok in Hc. destruct (v_det vr) as [|t'|ts|ps]; try discriminate.
+      - apply (HP false (TId t') pj Hc Hd); [discriminate | exact Hv].
+      - apply (HP false (TProps ps deny) pj Hc Hd); [discriminate | exact Hv].
+    Qed.
+
+    Lemma str_enum_sound stag names j :
+      str_enum_names stag = Some names -> vx n stag j = true -> exists x, j = JStr x /\ In x names.
+    Proof.
+      destruct stag as [b|ty fmt enum cst nv sv ik items ai mni mxi uq props req ap mnp mxp allo anyo oneo no ref dflt title];
+        [discriminate|].
+      simpl. destruct ty as [[|t r]|]; try discriminate. destruct t; try discriminate.
+      destruct r; try discriminate. destruct enum as [es|]; try discriminate.
+      destruct ref; try discriminate. intros Hs Hv.
+      apply vx_parts in Hv. destruct Hv as (Hty & _ & Hen & _).
+      unfold valid_type in Hty. simpl in Hty. rewrite orb_false_r in Hty.
+      destruct j as [| | | |x| |]; try discriminate. exists x. split; [reflexivity|].
+      simpl in Hen. apply existsb_exists in Hen. destruct Hen as [e [Hin He]].
+      destruct e as [| | | |y| |]; try discriminate. simpl in He. apply ustr_eqb_eq in He. subst y.
+      eapply strs_In; eassumption.
+    Qed.
+
+    Lemma external_sound vs deny nn b v t name dflt bes :
+      Pkids (Pcov cov n) b -> get_det T t = Some (DEnum name dflt TagExternal vs deny bes) ->
+      external_branch_ok cov vs deny nn b = true ->
+      in_dom v = true -> (nn = true -> v <> JNull) -> vx n b v = true ->
+      exists f, de f t v <> None.
+    Proof.
+      intros HK Ed Hc Hd Hnn Hv.
+      destruct b as [b|ty fmt enum cst nv sv ik items ai mni mxi uq props req ap mnp mxp allo anyo oneo no ref dflt' title];
+        [discriminate|].
+      unfold external_branch_ok in Hc.
+      destruct ref; [discriminate|]. destruct anyo; [discriminate|]. destruct oneo; [discriminate|].
+      destruct allo; [discriminate|]. destruct no; [discriminate|].
+      simpl in HK. destruct HK as (_ & HKp & _).
+      apply vx_parts in Hv. destruct Hv as (Hty & _ & Hen & _ & _ & _ & Hol & _ & Hobj & _ & _).
+      apply orb_true_iff in Hc. destruct Hc as [Hc|Hc].
+      - (* unit variants *)
+        apply andb_true_iff in Hc. destruct Hc as [Hc1 Hc2].
+        destruct (ty_is_sound _ _ _ _ _ Hc1 Hty Hnn) as [ity [[<-|[]] Hok]].
+        destruct v as [| | | |s| |]; try discriminate.
+        destruct enum as [es|]; [|discriminate].
+        destruct (str_simple_find _ _ _ Hc2 Hen) as [i [vr [Ef Evr]]].
+        exists 1. rewrite (de_at _ _ _ _ Ed). cbn [de_node]. unfold de_enum. rewrite Ef, Evr. discriminate.
+      - (* {"K": payload} *)
+        rewrite !andb_true_iff in Hc. destruct Hc as [[Hc1 Hc2] Hc3].
+        destruct (ty_is_sound _ _ _ _ _ Hc1 Hty Hnn) as [ity [[<-|[]] Hok]].
+        destruct v as [| | | | | |kvs]; try discriminate.
+        destruct ap as [[[|]|]|]; try discriminate.
+        destruct props as [|[k sk] [|kv2 r]]; try discriminate. simpl in Hc3.
+        apply andb_true_iff in Hc3. destruct Hc3 as [Hreq Hc3].
+        destruct (find_variant k vs 0) as [[i vr]|] eqn:Ef; [|discriminate].
+        specialize (Hobj kvs eq_refl). apply valid_obj_parts in Hobj. destruct Hobj as [Hp Ha].
+        unfold valid_obj_local in Hol. rewrite !andb_true_iff in Hol. destruct Hol as [[Hrq _] _].
+        assert (Hhk : has_key k kvs = true).
+        { apply mem_ustr_In in Hreq. apply (proj1 (forallb_forall _ _) Hrq k Hreq). }
+        assert (Hall : forall kv, In kv kvs -> fst kv = k).
+        { intros kv Hin. destruct (has_key (fst kv) [(k, sk)]) eqn:Ek.
+          - unfold has_key in Ek. simpl in Ek. destruct (ustr_eqb (fst kv) k) eqn:E; [|discriminate].
+            apply ustr_eqb_eq in E. exact E.
+          - assert (Hf := Ha (SBool false) eq_refl kv Hin Ek). rewrite valid_SBool in Hf. discriminate. }
+        destruct (single_key kvs k (in_dom_keys _ Hd) Hall Hhk) as [pj Ekvs]. subst kvs.
+        assert (Hpj : vx n sk pj = true).
+        { apply (Hp k sk pj (or_introl eq_refl)). simpl. rewrite ustr_eqb_refl. reflexivity. }
+        inversion HKp as [|? ? HPsk _]. subst. simpl in HPsk.
+        destruct (payload_sound sk deny vr pj HPsk Hc3) as [f Hf]; [|exact Hpj|].
+        { apply (in_dom_obj _ (k, pj) Hd). left. reflexivity. }
+        exists (S f). rewrite (de_at _ _ _ _ Ed). cbn [de_node]. unfold de_enum. rewrite Ef.
+        rewrite option_map_ok. exact Hf.
+    Qed.
+
+    Lemma adjacent_sound tg ct vs deny nn b v t name dflt bes :
+      Pkids (Pcov cov n) b -> get_det T t = Some (DEnum name dflt (TagAdjacent tg ct) vs deny bes) ->
+      adjacent_branch_ok cov tg ct vs deny nn b = true ->
+      in_dom v = true -> (nn = true -> v <> JNull) -> vx n b v = true ->
+      exists f, de f t v <> None.
+    Proof.
+      intros HK Ed Hc Hd Hnn Hv.
+      destruct b as [b|ty fmt enum cst nv sv ik items ai mni mxi uq props req ap mnp mxp allo anyo oneo no ref dflt' title];
+        [discriminate|].
+      unfold adjacent_branch_ok in Hc.
+      destruct ref; [discriminate|]. destruct anyo; [discriminate|]. destruct oneo; [discriminate|].
+      destruct allo; [discriminate|]. destruct no; [discriminate|].
+      simpl in HK. destruct HK as (_ & HKp & _).
+      apply vx_parts in Hv. destruct Hv as (Hty & _ & _ & _ & _ & _ & Hol & _ & Hobj & _ & _).
+      rewrite !andb_true_iff in Hc. destruct Hc as [[[Hc1 Hne] Hreq] Hc4].
+      destruct (ty_is_sound _ _ _ _ _ Hc1 Hty Hnn) as [ity [[<-|[]] Hok]].
+      destruct v as [| | | | | |kvs]; try discriminate.
+      specialize (Hobj kvs eq_refl). apply valid_obj_parts in Hobj. destruct Hobj as [Hp Ha].
+      unfold valid_obj_local in Hol. rewrite !andb_true_iff in Hol. destruct Hol as [[Hrq _] _].
+      apply negb_true_iff in Hne.
+      (* the tag member *)
+      destruct (assoc tg props) as [stag|] eqn:Etag; [|discriminate].
+      destruct (str_enum_names stag) as [names|] eqn:Enames; [|discriminate].
+      assert (Htk : has_key tg kvs = true).
+      { apply mem_ustr_In in Hreq. apply (proj1 (forallb_forall _ _) Hrq tg Hreq). }
+      apply has_key_true in Htk. destruct Htk as [jt Ejt].
+      assert (Hjt : vx n stag jt = true) by (apply (Hp tg stag jt); [apply assoc_In; exact Etag | exact Ejt]).
+      destruct (str_enum_sound stag names jt Enames Hjt) as [s [-> Hs]].
+      apply (proj1 (forallb_forall _ _) Hc4) in Hs.
+      destruct (find_variant s vs 0) as [[i vr]|] eqn:Ef; [|discriminate].
+      apply andb_true_iff in Hs. destruct Hs as [Hall Hcase].
+      (* declared members are the tag or the content *)
+      assert (KP : forall k, has_key k props = true -> k = tg \/ k = ct).
+      { intros k Hk. apply has_key_true in Hk. destruct Hk as [sk Hk]. apply assoc_In in Hk.
+        apply (proj1 (forallb_forall _ _) Hall) in Hk. simpl in Hk.
+        apply orb_true_iff in Hk. destruct Hk as [Hk|Hk].
+        - left. apply ustr_eqb_eq. exact Hk.
+        - right. apply andb_true_iff in Hk. destruct Hk as [Hk _]. apply ustr_eqb_eq. exact Hk. }
+      assert (Hclosed : is_ap_false ap = true -> forall kv, In kv kvs -> has_key (fst kv) props = true).
+      { intros Hapf kv Hin. destruct ap as [[[|]|]|]; try discriminate.
+        destruct (has_key (fst kv) props) eqn:Ek; [reflexivity|].
+        assert (Hf := Ha (SBool false) eq_refl kv Hin Ek). rewrite valid_SBool in Hf. discriminate. }
+      assert (Hothers : is_ap_false ap = true ->
+                        remove_key ct (remove_key tg kvs) = []).
+      { intros Hapf. apply remove_two_keys. intros kv Hin. apply KP. apply Hclosed; assumption. }
+      destruct (has_key ct props) eqn:Ect.
+      - (* content declared *)
+        apply andb_true_iff in Hcase. destruct Hcase as [Hcreq Hdeny].
+        assert (Hck : has_key ct kvs = true).
+        { apply mem_ustr_In in Hcreq. apply (proj1 (forallb_forall _ _) Hrq ct Hcreq). }
+        apply has_key_true in Hck. destruct Hck as [pj Epj].
+        apply has_key_true in Ect. destruct Ect as [sc Esc]. apply assoc_In in Esc.
+        assert (Hpay : payload_ok cov sc deny vr = true).
+        { assert (H := proj1 (forallb_forall _ _) Hall (ct, sc) Esc). simpl in H.
+          rewrite ustr_eqb_sym, Hne in H. simpl in H. apply andb_true_iff in H. destruct H as [_ H]. exact H. }
+        assert (HPsc : Pcov cov n sc) by (apply (proj1 (Forall_forall _ _) HKp (ct, sc) Esc)).
+        destruct (payload_sound sc deny vr pj HPsc Hpay) as [f Hf].
+        { eapply in_dom_assoc; eassumption. }
+        { apply (Hp ct sc pj Esc Epj). }
+        exists (S f). rewrite (de_at _ _ _ _ Ed). cbn [de_node]. unfold de_enum.
+        rewrite Ejt, Ef, Epj.
+        assert (Ed0 : deny && negb (Nat.eqb (length (remove_key ct (remove_key tg kvs))) 0) = false).
+        { destruct deny; [|reflexivity]. simpl in Hdeny. rewrite (Hothers Hdeny). reflexivity. }
+        rewrite Ed0. rewrite option_map_ok. exact Hf.
+      - (* unit variant: no content *)
+        apply andb_true_iff in Hcase. destruct Hcase as [Hsimple Hapf].
+        assert (Enc : assoc ct kvs = None).
+        { destruct (assoc ct kvs) as [pj|] eqn:Epj; [|reflexivity].
+          apply assoc_In in Epj. apply (Hclosed Hapf) in Epj. simpl in Epj. congruence. }
+        exists 1. rewrite (de_at _ _ _ _ Ed). cbn [de_node]. unfold de_enum.
+        rewrite Ejt, Ef, Enc, (Hothers Hapf). simpl. rewrite andb_false_r.
+        destruct (v_det vr); try discriminate.
+    Qed.
+
     (* anyOf / oneOf with no other assertion beside it: Option of the non-null
-       branches, or an untagged enum some variant of which takes each branch *)
+       branches, an untagged enum some variant of which takes each branch, or an
+       externally / adjacently tagged enum whose variants the branches spell out *)
     Lemma union_sound ty enum cst allo no nn d bs t v :
-      Forall (Pcov cov n) bs -> get_det T t = Some d ->
+      Forall (fun b => Pcov cov n b /\ Pkids (Pcov cov n) b) bs -> get_det T t = Some d ->
       union_ok cov ty enum cst allo no nn d bs = true ->
       in_dom v = true -> (nn = true -> v <> JNull) ->
       (exists b, In b bs /\ vx n b v = true) ->
       exists f, de f t v <> None.
     Proof.
       intros Hbs Ed Hc Hd Hnn [b [Hin Hb]].
-      assert (HP := proj1 (Forall_forall _ _) Hbs b Hin).
+      destruct (proj1 (Forall_forall _ _) Hbs b Hin) as [HP HK].
       unfold union_ok in Hc.
       destruct ty; [discriminate|]. destruct enum; [discriminate|]. destruct cst; [discriminate|].
       destruct allo; [discriminate|]. destruct no; [discriminate|].
       destruct d; try discriminate.
-      - (* untagged enum *)
-        destruct tag; try discriminate.
-        apply (proj1 (forallb_forall _ _) Hc) in Hin.
-        apply existsb_exists in Hin. destruct Hin as [vr [Hvr Hok]].
-        unfold variant_ok in Hok.
-        assert (HU : exists f, de_payload T (de f) (dv f) deny (v_det vr) v <> None).
-        { destruct (v_det vr) as [|t'|ts|ps].
-          - assert (E := null_only_sound n b v Hok Hb). subst v. exists 0. discriminate.
-          - apply (HP nn (TId t') v Hok Hd Hnn Hb).
-          - discriminate.
-          - apply (HP nn (TProps ps deny) v Hok Hd Hnn Hb). }
-        destruct HU as [f HU]. exists (S f). rewrite (de_at _ _ _ _ Ed). cbn [de_node]. unfold de_enum.
-        apply de_untagged_ok. exists vr. split; assumption.
+      - destruct tag; try discriminate.
+        + (* externally tagged *)
+          apply (proj1 (forallb_forall _ _) Hc) in Hin. eapply external_sound; eassumption.
+        + (* adjacently tagged *)
+          apply (proj1 (forallb_forall _ _) Hc) in Hin. eapply adjacent_sound; eassumption.
+        + (* untagged enum *)
+          apply (proj1 (forallb_forall _ _) Hc) in Hin.
+          apply existsb_exists in Hin. destruct Hin as [vr [Hvr Hok]].
+          unfold variant_ok in Hok.
+          assert (HU : exists f, de_payload T (de f) (dv f) deny (v_det vr) v <> None).
+          { destruct (v_det vr) as [|t'|ts|ps].
+            - assert (E := null_only_sound n b v Hok Hb). subst v. exists 0. discriminate.
+            - apply (HP nn (TId t') v Hok Hd Hnn Hb).
+            - discriminate.
+            - apply (HP nn (TProps ps deny) v Hok Hd Hnn Hb). }
+          destruct HU as [f HU]. exists (S f). rewrite (de_at _ _ _ _ Ed). cbn [de_node]. unfold de_enum.
+          apply de_untagged_ok. exists vr. split; assumption.
       - (* Option *)
         apply (option_de _ _ t0 v Ed eq_refl). intros Hne.
         apply (proj1 (forallb_forall _ _) Hc) in Hin.
@@ -669,7 +914,8 @@ Section Sound.
 
     Lemma go_sound ty fmt enum cst nv sv ik items ai mni mxi uq props req ap mnp mxp allo anyo oneo no ref dflt title :
       Forall (Pcov cov n) items -> Forall (fun kv => Pcov cov n (snd kv)) props -> OForall (Pcov cov n) ap ->
-      OForall (Forall (Pcov cov n)) anyo -> OForall (Forall (Pcov cov n)) oneo ->
+      OForall (Forall (fun b => Pcov cov n b /\ Pkids (Pcov cov n) b)) anyo ->
+      OForall (Forall (fun b => Pcov cov n b /\ Pkids (Pcov cov n) b)) oneo ->
       forall ft nn t v,
       go re_match native_ok T A cov ty fmt enum cst nv sv ik items mni mxi props req ap allo anyo oneo no ref ft nn t = true ->
       in_dom v = true -> (nn = true -> v <> JNull) ->
@@ -702,12 +948,17 @@ Section Sound.
         + destruct allo; [discriminate|]. destruct no; [discriminate|].
           destruct (option_of d) as [t'|] eqn:Eo.
           * apply (option_de _ _ _ v Ed Eo). intros Hne. apply (IH true t' v Hc Hd (fun _ => Hne) Hv).
-          * eapply leaf_sound; eassumption.
+          * destruct (cenum_of d) as [[t' vs]|] eqn:Ece; [|eapply leaf_sound; eassumption].
+            apply andb_true_iff in Hc. destruct Hc as [Hc1 Hc2].
+            destruct (IH nn t' v Hc2 Hd Hnn Hv) as [f Hf]. exists (S f).
+            apply (cenum_de _ _ _ _ _ _ Ed Ece); [|exact Hf].
+            apply vx_parts in Hv. destruct Hv as (_ & _ & Hen & _). eapply enum_ok_sound; eassumption.
     Qed.
 
     Lemma node_sound ty fmt enum cst nv sv ik items ai mni mxi uq props req ap mnp mxp allo anyo oneo no ref dflt title :
       Forall (Pcov cov n) items -> Forall (fun kv => Pcov cov n (snd kv)) props -> OForall (Pcov cov n) ap ->
-      OForall (Forall (Pcov cov n)) anyo -> OForall (Forall (Pcov cov n)) oneo ->
+      OForall (Forall (fun b => Pcov cov n b /\ Pkids (Pcov cov n) b)) anyo ->
+      OForall (Forall (fun b => Pcov cov n b /\ Pkids (Pcov cov n) b)) oneo ->
       Pcov (fun _ => covers_obj re_match native_ok T A cov ty fmt enum cst nv sv ik items mni mxi props req ap allo anyo oneo no ref)
            n (SObj ty fmt enum cst nv sv ik items ai mni mxi uq props req ap mnp mxp allo anyo oneo no ref dflt title).
     Proof.
@@ -745,14 +996,30 @@ Section Sound.
     { intros r t v Hm Hd Hr. destruct (pair_discharged r t Hm) as [s [Es Hc]].
       unfold refk_valid in Hr. destruct n as [|m]; [discriminate|]. rewrite Es in Hr.
       apply (IHn m (Nat.lt_succ_diag_r m) s false (TId t) v Hc Hd); [discriminate | exact Hr]. }
-    induction s as [b|ty fmt enum cst nv sv ik items ai mni mxi uq props req ap mnp mxp allo anyo oneo no ref dflt title
-                      Hitems Hai Hprops Hap Hallo Hany Hone Hno] using schema_ind'.
-    - intros nn tg v Hc Hd Hnn Hv. rewrite valid_SBool in Hv. subst b. simpl in Hc.
-      destruct tg as [t|]; [|discriminate]. exists (S FT). apply accepts_any_sound. exact Hc.
-    - intros nn tg v Hc.
-      apply (node_sound cv n Href ty fmt enum cst nv sv ik items ai mni mxi uq props req ap mnp mxp
-                        allo anyo oneo no ref dflt title Hitems Hprops Hap Hany Hone nn tg v).
-      exact Hc.
+    assert (Hdeep : forall s, Pcov cv n s /\ Pkids (Pcov cv n) s).
+    { induction s as [b|ty fmt enum cst nv sv ik items ai mni mxi uq props req ap mnp mxp allo anyo oneo no ref dflt title
+                        Hitems Hai Hprops Hap Hallo Hany Hone Hno] using schema_ind'.
+      - split; [|exact I].
+        intros nn tg v Hc Hd Hnn Hv. rewrite valid_SBool in Hv. subst b. simpl in Hc.
+        destruct tg as [t|]; [|discriminate]. exists (S FT). apply accepts_any_sound. exact Hc.
+      - assert (Hitems' : Forall (Pcov cv n) items)
+          by (revert Hitems; apply Forall_impl; intros a [H _]; exact H).
+        assert (Hprops' : Forall (fun kv => Pcov cv n (snd kv)) props)
+          by (revert Hprops; apply Forall_impl; intros a [H _]; exact H).
+        assert (Hap' : OForall (Pcov cv n) ap) by (destruct ap; simpl in *; [exact (proj1 Hap) | exact I]).
+        assert (Hany' : OForall (Forall (Pcov cv n)) anyo).
+        { destruct anyo as [l|]; simpl in *; [|exact I].
+          revert Hany; apply Forall_impl; intros a [H _]; exact H. }
+        assert (Hone' : OForall (Forall (Pcov cv n)) oneo).
+        { destruct oneo as [l|]; simpl in *; [|exact I].
+          revert Hone; apply Forall_impl; intros a [H _]; exact H. }
+        split.
+        + intros nn tg v Hc.
+          apply (node_sound cv n Href ty fmt enum cst nv sv ik items ai mni mxi uq props req ap mnp mxp
+                            allo anyo oneo no ref dflt title Hitems' Hprops' Hap' Hany Hone nn tg v).
+          exact Hc.
+        + simpl. repeat split; assumption. }
+    intros s. apply Hdeep.
   Qed.
 
   Theorem covers_sound_sec :
